@@ -412,4 +412,306 @@ theorem invG_step {s : St} {t : Tid} {s' : St} (hA : InvA s) (hM : InvM s) (h : 
       simp only [upd_same]; grind [holding])
 
 
+
+/-! ### The epoch-tag lemma and quiescence of everything that is about to be disposed -/
+
+
+/-- No thread is inside a critical section that began before `q` was retired. -/
+def Quiesced (s : St) (q : Obj) : Prop := ∀ u c r, s.secStart u = some c → s.retiredAt q = some r → r < c
+
+/-- `(q, tag)` is a tagged retired pointer: in the buffer or about to be pushed. -/
+def Item (s : St) (q : Obj) (tag : Nat) : Prop := (q, tag) ∈ s.buf ∨ ∃ t own, s.pc t = .push q tag own
+
+/-- `q` was retired before the first flip of the current synchronize. -/
+def RetBefore (s : St) (q : Obj) : Prop := ∃ r, s.retiredAt q = some r ∧ r < s.refClock
+
+/-- Knowledge of the synchronizer after its first flip: its own pointers, and (epoch-tag lemma) every tagged
+    pointer whose tag is at most the epoch returned by its fetch_add, were retired before that flip. -/
+def SyncQ (s : St) (w : W) : Prop :=
+  (∀ q, q ∈ w.own → RetBefore s q) ∧ (s.buffered = true → ∀ q tag, Item s q tag → tag ≤ w.e → RetBefore s q)
+
+/-- Knowledge during clear_buffer(e). -/
+def ClrQ (s : St) (w : W) : Prop :=
+  s.buffered = true ∧ (∀ q, q ∈ w.own → Quiesced s q) ∧ (∀ q tag, Item s q tag → tag ≤ w.e → Quiesced s q)
+
+def QBody (s : St) : PC → Prop
+  | .flip w true => SyncQ s w
+  | .waitLd w _ _ => SyncQ s w
+  | .waitG w _ _ _ => SyncQ s w
+  | .release w => SyncQ s w
+  | .clrPop w => ClrQ s w
+  | .clrDisp w q => Quiesced s q ∧ ClrQ s w
+  | .push _ _ own => ∀ q, q ∈ own → Quiesced s q
+  | .sizeLd own => ∀ q, q ∈ own → Quiesced s q
+  | .disp p rest => Quiesced s p ∧ ∀ q, q ∈ rest → Quiesced s q
+  | _ => True
+
+/-- The epoch variable of a program point after fetch_add. -/
+def wOf : PC → Option W
+  | .flip w _ => some w
+  | .waitLd w _ _ => some w
+  | .waitG w _ _ _ => some w
+  | .release w => some w
+  | .clrPop w => some w
+  | .clrDisp w _ => some w
+  | _ => none
+
+theorem invE_wOf {s : St} (hE : InvE s) (t : Tid) (w : W) (hw : wOf (s.pc t) = some w) (hb : s.buffered = true) :
+    w.e < s.epoch := by
+  obtain ⟨e1, e2, e3, e4, e5, e6⟩ := hE
+  cases hpc : s.pc t <;> rw [hpc] at hw <;> simp only [wOf, Option.some.injEq, reduceCtorEq] at hw <;> subst hw
+  · exact e1 _ _ _ hpc hb
+  · exact e2 _ _ _ _ hpc hb
+  · exact e3 _ _ _ _ _ hpc hb
+  · exact e4 _ _ hpc hb
+  · exact e5 _ _ hpc hb
+  · exact e6 _ _ _ hpc hb
+
+/-- What an action may change, as far as `QBody` of the other threads is concerned. -/
+structure FrameQ (s s' : St) : Prop where
+  hbf : s'.buffered = s.buffered
+  hsec : ∀ u c, s'.secStart u = some c → s.secStart u = some c ∨ s.clock ≤ c
+  hret : ∀ q, s.retiredAt q ≠ none → s'.retiredAt q = s.retiredAt q
+  hitem : ∀ q tag, Item s' q tag → Item s q tag ∨ s.epoch ≤ tag
+
+theorem quiesced_frame {s s' : St} (F : FrameQ s s') (q : Obj) (hq : s.retiredAt q ≠ none)
+    (h9 : ∀ r, s.retiredAt q = some r → r < s.clock) (h : Quiesced s q) : Quiesced s' q := by
+  intro u c r hs hr
+  rw [F.hret q hq] at hr
+  rcases F.hsec u c hs with h1 | h1
+  · exact h u c r h1 hr
+  · have := h9 r hr; omega
+
+theorem retBefore_frame {s s' : St} (F : FrameQ s s') (href : s'.refClock = s.refClock) (q : Obj)
+    (h : RetBefore s q) : RetBefore s' q := by
+  obtain ⟨r, h1, h2⟩ := h
+  exact ⟨r, by rw [F.hret q (by simp [h1]), h1], by rw [href]; exact h2⟩
+
+theorem syncQ_frame {s s' : St} (F : FrameQ s s') (href : s'.refClock = s.refClock) (w : W)
+    (he : s.buffered = true → w.e < s.epoch) (h : SyncQ s w) : SyncQ s' w := by
+  refine ⟨fun q hq => retBefore_frame F href q (h.1 q hq), fun hb q tag hi ht => ?_⟩
+  rw [F.hbf] at hb
+  rcases F.hitem q tag hi with h1 | h1
+  · exact retBefore_frame F href q (h.2 hb q tag h1 ht)
+  · have := he hb; omega
+
+theorem clrQ_frame {s s' : St} (F : FrameQ s s') (w : W)
+    (he : s.buffered = true → w.e < s.epoch) (h9 : ∀ q r, s.retiredAt q = some r → r < s.clock)
+    (hown : ∀ q, q ∈ w.own → s.retiredAt q ≠ none) (hir : ∀ q tag, Item s q tag → s.retiredAt q ≠ none)
+    (h : ClrQ s w) : ClrQ s' w := by
+  obtain ⟨hb, h1, h2⟩ := h
+  refine ⟨by rw [F.hbf]; exact hb, fun q hq => quiesced_frame F q (hown q hq) (h9 q) (h1 q hq), fun q tag hi ht => ?_⟩
+  rcases F.hitem q tag hi with h3 | h3
+  · exact quiesced_frame F q (hir q tag h3) (h9 q) (h2 q tag h3 ht)
+  · have := he hb; omega
+
+theorem QBody_frame {s s' : St} (F : FrameQ s s') (pc : PC)
+    (href : s'.refClock = s.refClock ∨ holding pc = false)
+    (he : s.buffered = true → ∀ w, wOf pc = some w → w.e < s.epoch)
+    (h9 : ∀ q r, s.retiredAt q = some r → r < s.clock)
+    (hloc : ∀ q, q ∈ locals pc → s.retiredAt q ≠ none) (hir : ∀ q tag, Item s q tag → s.retiredAt q ≠ none)
+    (h : QBody s pc) : QBody s' pc := by
+  cases pc
+  case flip w r =>
+    cases r
+    · trivial
+    · exact syncQ_frame F (by simpa [holding] using href) w (fun hb => he hb w rfl) h
+  case waitLd w r i => exact syncQ_frame F (by simpa [holding] using href) w (fun hb => he hb w rfl) h
+  case waitG w r i c => exact syncQ_frame F (by simpa [holding] using href) w (fun hb => he hb w rfl) h
+  case release w => exact syncQ_frame F (by simpa [holding] using href) w (fun hb => he hb w rfl) h
+  case clrPop w => exact clrQ_frame F w (fun hb => he hb w rfl) h9 (fun q hq => hloc q (by simpa [locals] using hq)) hir h
+  case clrDisp w q =>
+    exact ⟨quiesced_frame F q (hloc q (by simp [locals])) (h9 q) h.1,
+      clrQ_frame F w (fun hb => he hb w rfl) h9 (fun q hq => hloc q (by simp [locals, hq])) hir h.2⟩
+  case push p tag own =>
+    exact fun q hq => quiesced_frame F q (hloc q (by simp [locals, hq])) (h9 q) (h q hq)
+  case sizeLd own =>
+    exact fun q hq => quiesced_frame F q (hloc q (by simpa [locals] using hq)) (h9 q) (h q hq)
+  case disp p rest =>
+    exact ⟨quiesced_frame F p (hloc p (by simp [locals])) (h9 p) h.1,
+      fun q hq => quiesced_frame F q (hloc q (by simp [locals, hq])) (h9 q) (h.2 q hq)⟩
+  all_goals trivial
+
+theorem trans_pc_other {s s' : St} {t : Tid} (tr : Trans s t s') : ∀ t', t' ≠ t → s'.pc t' = s.pc t' := by
+  intro t' h
+  cases tr <;> simp [upd, h]
+
+theorem frameQ_of_trans {s s' : St} {t : Tid} (tr : Trans s t s') : FrameQ s s' := by
+  refine ⟨?_, ?_, ?_, ?_⟩
+  · cases tr <;> rfl
+  · cases tr <;> dsimp only <;> intros <;> grind [upd]
+  · cases tr <;> dsimp only <;> intros <;> grind [upd]
+  · cases tr <;> intro q tag <;> simp only [Item] <;> (try dsimp only) <;> grind [upd, afterScan]
+
+theorem trans_refClock {s s' : St} {t : Tid} (hM : InvM s) (tr : Trans s t s') :
+    s'.refClock = s.refClock ∨ ((∃ w, s.pc t = .flip w false) ∧ ∀ t', t' ≠ t → holding (s.pc t') = false) := by
+  cases tr
+  case flip w r hpc =>
+    cases r
+    · right
+      have hme := hM.m1 t
+      rw [hpc] at hme; simp only [holding, true_iff] at hme
+      exact ⟨⟨w, hpc⟩, others_not_holding hM (Or.inl hme)⟩
+    · left; rfl
+  all_goals (left; rfl)
+
+theorem invP_locals_retired {s : St} (hP : InvP s) (t : Tid) (q : Obj) (h : q ∈ locals (s.pc t)) :
+    s.retiredAt q ≠ none := by
+  have h1 := (hP.p2 q t).2 h
+  have h2 := hP.p1 q
+  grind
+
+theorem invP_item_retired {s : St} (hP : InvP s) (q : Obj) (tag : Nat) (h : Item s q tag) :
+    s.retiredAt q ≠ none := by
+  rcases h with h | ⟨t, own, h⟩
+  · have h1 : q ∈ s.buf.map Prod.fst := List.mem_map.2 ⟨(q, tag), h, rfl⟩
+    have h2 := (hP.p3 q).2 h1
+    have h3 := hP.p1 q
+    grind
+  · exact invP_locals_retired hP t q (by rw [h]; simp [locals])
+
+theorem quiesced_of_retBefore {s : St} {q : Obj} (h : RetBefore s q) (hno : ∀ u, ¬ OldSec s u) : Quiesced s q := by
+  intro u c r hs hr
+  obtain ⟨r', h1, h2⟩ := h
+  have := hno u
+  simp only [OldSec, not_exists, not_and] at this
+  have := this c hs
+  grind
+
+theorem QBody_finPC {s : St} (own : List Obj) (h : ∀ q, q ∈ own → Quiesced s q) : QBody s (finPC own) := by
+  cases own with
+  | nil => simp [finPC, QBody]
+  | cons p rest => exact ⟨h p (by simp), fun q hq => h q (by simp [hq])⟩
+
+structure InvQ (s : St) : Prop where
+  body : ∀ t, QBody s (s.pc t)
+
+theorem invQ_init (b n c bc) : InvQ (init b n c bc) := by
+  constructor; simp [init, QBody]
+
+theorem syncQ_first_flip {s s' : St} (F : FrameQ s s') (href : s'.refClock = s.clock) (w : W)
+    (h9 : ∀ q r, s.retiredAt q = some r → r < s.clock)
+    (hown : ∀ q, q ∈ w.own → s.retiredAt q ≠ none) (hir : ∀ q tag, Item s q tag → s.retiredAt q ≠ none)
+    (he : s.buffered = true → w.e < s.epoch) : SyncQ s' w := by
+  have key : ∀ q, s.retiredAt q ≠ none → RetBefore s' q := by
+    intro q h1
+    cases h2 : s.retiredAt q with
+    | none => exact absurd h2 h1
+    | some r => exact ⟨r, by rw [F.hret q h1, h2], by rw [href]; exact h9 q r h2⟩
+  refine ⟨fun q hq => key q (hown q hq), fun hb q tag hi ht => ?_⟩
+  rw [F.hbf] at hb
+  rcases F.hitem q tag hi with h3 | h3
+  · exact key q (hir q tag h3)
+  · have := he hb; omega
+
+theorem invQ_step {s : St} {t : Tid} {s' : St} (hA : InvA s) (hM : InvM s) (hP : InvP s) (hE : InvE s) (hG : InvG s)
+    (h : InvQ s) (tr : Trans s t s') : InvQ s' := by
+  have F := frameQ_of_trans tr
+  have hir := invP_item_retired hP
+  have hfr : ∀ t', QBody s' (s.pc t') := by
+    intro t'
+    have hfr0 : s'.refClock = s.refClock ∨ holding (s.pc t') = false → QBody s' (s.pc t') := fun href =>
+      QBody_frame F (s.pc t') href (fun hb w hw => invE_wOf hE t' w hw hb) hA.a9
+        (invP_locals_retired hP t') hir (h.body t')
+    rcases trans_refClock hM tr with h1 | ⟨⟨w, hw⟩, h1⟩
+    · exact hfr0 (Or.inl h1)
+    · by_cases ht : t' = t
+      · subst ht; rw [hw]; trivial
+      · exact hfr0 (Or.inr (h1 t' ht))
+  suffices hnew : ∀ pc', s'.pc t = pc' → QBody s' pc' by
+    constructor
+    intro t'
+    by_cases ht : t' = t
+    · rw [ht]; exact hnew _ rfl
+    · rw [trans_pc_other tr t' ht]; exact hfr t'
+  intro pc' hpc'
+  have hold := hfr t
+  have hcur := h.body t
+  have hG' := hG.body t
+  have hlr := invP_locals_retired hP t
+  have hwe := invE_wOf hE t
+  cases tr
+  case flip w r hpc =>
+    rw [hpc] at hold hlr hwe
+    simp only [upd_same, afterScan] at hpc'
+    cases r
+    · have hS := syncQ_first_flip F (by simp) w hA.a9 (fun q hq => hlr q (by simpa [locals] using hq)) hir
+        (fun hb => hwe w rfl hb)
+      (repeat' split at hpc') <;> subst hpc' <;> first | exact hS | simp at *
+    · (repeat' split at hpc') <;> subst hpc' <;> first | exact hold | simp at *
+  case waitLd w r i hpc => rw [hpc] at hold; simp only [upd_same] at hpc'; subst hpc'; exact hold
+  case waitG w r i c hpc =>
+    rw [hpc] at hold; simp only [upd_same, afterScan] at hpc'
+    (repeat' split at hpc') <;> subst hpc' <;> first | exact hold | trivial
+  case release w hpc =>
+    rw [hpc] at hold hG'
+    simp only [upd_same] at hpc'
+    have hno := hG'.2
+    obtain ⟨h1, h2⟩ := hold
+    split at hpc'
+    · rename_i hb
+      subst hpc'
+      exact ⟨hb, fun q hq => quiesced_of_retBefore (h1 q hq) hno,
+        fun q tag hi ht => quiesced_of_retBefore (h2 hb q tag hi ht) hno⟩
+    · subst hpc'; exact QBody_finPC _ (fun q hq => quiesced_of_retBefore (h1 q hq) hno)
+  case clrPopEmpty w hb hpc =>
+    rw [hpc] at hold; simp only [upd_same] at hpc'; subst hpc'
+    exact QBody_finPC _ hold.2.1
+  case clrPop w q tag rest hb hpc =>
+    rw [hpc] at hold hcur; simp only [upd_same] at hpc'
+    split at hpc'
+    · rename_i hle
+      subst hpc'
+      have hi : Item s q tag := Or.inl (by rw [hb]; simp)
+      exact ⟨quiesced_frame F q (hir q tag hi) (hA.a9 q) (hcur.2.2 q tag hi hle), hold⟩
+    · subst hpc'; exact hold.2.1
+  case clrDisp w q hpc => rw [hpc] at hold; simp only [upd_same] at hpc'; subst hpc'; exact hold.2
+  case pushOk p tag own hlen hpc => rw [hpc] at hold; simp only [upd_same] at hpc'; subst hpc'; exact hold
+  case sizeLd own hpc =>
+    rw [hpc] at hold; simp only [upd_same] at hpc'
+    split at hpc'
+    · subst hpc'; trivial
+    · subst hpc'; exact QBody_finPC _ hold
+  case disp p rest hpc => rw [hpc] at hold; simp only [upd_same] at hpc'; subst hpc'; exact QBody_finPC _ hold.2
+  case iRetire p hd ht hr hpc => simp only [upd_same] at hpc'; split at hpc' <;> subst hpc' <;> trivial
+  case rlLoad hpc => simp only [upd_same] at hpc'; split at hpc' <;> subst hpc' <;> trivial
+  case acqOk own hl hpc => simp only [upd_same] at hpc'; split at hpc' <;> subst hpc' <;> trivial
+  case acqFail own x hl hpc => dsimp only at hpc'; rw [hpc] at hpc'; subst hpc'; trivial
+  all_goals (simp only [upd_same] at hpc'; subst hpc'; first | trivial | (intro q hq; simp at hq))
+
+/-- An object that is about to be given to its disposer is quiescent. -/
+theorem invQ_disposing {s : St} (hA : InvA s) (hQ : InvQ s) (t : Tid) (p : Obj) (h : disposing (s.pc t) = some p) :
+    Quiesced s p := by
+  have hb := hQ.body t
+  cases hpc : s.pc t <;> rw [hpc] at h hb <;> simp only [disposing, Option.some.injEq, reduceCtorEq] at h <;> subst h
+  · exact hb.1
+  · exact hb.1
+  · intro u c r hs hr
+    have := (hA.a10 (hA.a11 t (Or.inr ⟨_, hpc⟩)) u).1
+    simp [this] at hs
+
+
+/-! ### All invariants together -/
+
+structure Inv (s : St) : Prop where
+  A : InvA s
+  M : InvM s
+  P : InvP s
+  E : InvE s
+  G : InvG s
+  Q : InvQ s
+
+theorem inv_init (b n c bc) : Inv (init b n c bc) :=
+  ⟨invA_init b n c bc, invM_init b n c bc, invP_init b n c bc, invE_init b n c bc, invG_init b n c bc, invQ_init b n c bc⟩
+
+theorem inv_trans {s : St} {t : Tid} {s' : St} (h : Inv s) (tr : Trans s t s') : Inv s' :=
+  ⟨invA_step h.A tr, invM_step h.M tr, invP_step h.P tr, invE_step h.E tr, invG_step h.A h.M h.G tr,
+   invQ_step h.A h.M h.P h.E h.G h.Q tr⟩
+
+theorem inv_step (s : St) (t : Tid) (a : Act) (s' : St) (o : Obs) (h : Inv s) (hap : model.apply s t a = some (s', o)) :
+    Inv s' := inv_trans h (trans_of_apply hap)
+
+theorem inv_reachable (b : Bool) (n c bc : Nat) (s : St) (h : model.Reachable (init b n c bc) s) : Inv s :=
+  model.inv_reachable Inv (init b n c bc) (inv_init b n c bc) inv_step s h
+
 end CdsVerif.Algo.RCU
